@@ -43,8 +43,17 @@ def num(x):
     return repr(float(x))
 
 
+TRACE = ["T"]
+
+
 def p_expr(e):
     k = e[0]
+    if k == "ewx":
+        return "(if (" + p_expr(e[1]) + ") exitWith " + p_block(e[2]) + ")"
+    if k == "brx":
+        return "(" + p_expr(e[2]) + ' breakOut "%s")' % e[1]
+    if k == "thx":
+        return "(throw " + p_expr(e[1]) + ")"
     if k == "n":
         return num(e[1]) if e[1] >= 0 else "(" + num(e[1]) + ")"
     if k == "b":
@@ -105,9 +114,9 @@ def p_expr(e):
 def p_stmt(s):
     k = s[0]
     if k == "mark":
-        return "T pushBack [" + ", ".join([num(s[1])] + [p_expr(x) for x in s[2]]) + "]"
+        return TRACE[0] + " pushBack [" + ", ".join([num(s[1])] + [p_expr(x) for x in s[2]]) + "]"
     if k == "obs":
-        return "T pushBack [" + num(s[1]) + ", " + p_expr(s[2]) + "]"
+        return TRACE[0] + " pushBack [" + num(s[1]) + ", " + p_expr(s[2]) + "]"
     if k == "val":
         return p_expr(s[1])
     if k == "set":
@@ -148,8 +157,20 @@ def p_block(b):
     return "{" + "; ".join(p_stmt(s) for s in b) + "}"
 
 
-def p_program(b):
-    return "T = []; " + "; ".join(p_stmt(s) for s in b) + ";"
+def p_program(b, trace="T"):
+    TRACE[0] = trace
+    try:
+        return trace + " = []; " + "; ".join(p_stmt(s) for s in b) + ";"
+    finally:
+        TRACE[0] = "T"
+
+
+def p_body(b, trace="T"):
+    TRACE[0] = trace
+    try:
+        return "; ".join(p_stmt(s) for s in b)
+    finally:
+        TRACE[0] = "T"
 
 
 # ------------------------------------------------------------------ reference interpreter
@@ -295,6 +316,15 @@ class Model:
 
     def ev(self, e):
         k = e[0]
+        if k == "ewx":
+            if self.ev(e[1]):
+                v, _ = self.block(e[2])
+                raise _Exit(v)
+            return NIL
+        if k == "brx":
+            raise _Break(e[1], self.ev(e[2]))
+        if k == "thx":
+            raise _Throw(self.ev(e[1]))
         if k == "n":
             return float(e[1])
         if k in ("b", "s"):
